@@ -649,7 +649,8 @@ func ruleSyncArm(w *World, r *Report, pfx string) {
 	bad := ""
 	sawRebuild, sawKeep := false, false
 	wst := w.Func("mpb.(*Bar).wSyncTable")
-	n, over := w.enumPaths(loop, pathOpts{Start: arms[syncCmd], StopAt: stop, MaxPaths: 50000}, func(p *Path) {
+	n, over := w.enumPaths(loop, pathOpts{Start: arms[syncCmd], StopAt: stop, MaxPaths: 50000, InlineDepth: 2,
+		Inline: func(_ ssa.CallInstruction, c *ssa.Function) bool { return c.Pkg == w.Mpb && c != wst && c != syncWidthFn && c.Signature.Recv() == nil }}, func(p *Path) {
 		if bad != "" || p.Exit != "stop" {
 			return
 		}
@@ -728,7 +729,21 @@ func ruleSyncArm(w *World, r *Report, pfx string) {
 
 	// the rebuild loop covers every heap element, and per element both table halves are appended column-wise
 	var rebuildLoop *loopInfo
-	for _, l := range naturalLoops(loop) {
+	rebuildFns := []*ssa.Function{loop}
+	for _, b := range loop.Blocks {
+		for _, in := range b.Instrs {
+			if c, ok := in.(*ssa.Call); ok {
+				if sc := c.Call.StaticCallee(); sc != nil && w.modSet[sc] && sc.Pkg == w.Mpb && sc != wst && sc != syncWidthFn && sc.Signature.Recv() == nil {
+					rebuildFns = append(rebuildFns, sc)
+				}
+			}
+		}
+	}
+	var allLoops []*loopInfo
+	for _, f := range rebuildFns {
+		allLoops = append(allLoops, naturalLoops(f)...)
+	}
+	for _, l := range allLoops {
 		if l.Header == outer.Header {
 			continue
 		}
